@@ -45,6 +45,23 @@ Definition write_path_shape_ok : bool :=
   absent KChanWriteFrame src_Basic_publish_confirm && absent KConnWriteFrame src_Basic_publish_confirm &&
   absent KConnWriteFrames src_Basic_publish_confirm.
 
+(* ---- C05 / C13: the table operations the interleaving model (Model/ConcSem.v) gives IReg /
+        IWait / the environment: a registration points every reply name at the NEW request
+        (a plain store - so the newest waiter gets the replies, never a finished one), replies
+        are filed under the request the name points at, the entry is dropped once answered ---- *)
+Definition table_shape_ok : bool :=
+  (* register_request: fresh reply slot, then one store per reply name *)
+  once KStoreResponse src_Rpc_register_request &&
+  Nat.eqb (count_call KStoreRequest src_Rpc_register_request) 1 &&
+  before KStoreResponse KStoreRequest src_Rpc_register_request &&
+  has_sublist [TFor; TCall KStoreRequest; TEndFor] src_Rpc_register_request tok_eqb &&
+  (* on_frame: append to / start the reply list of that request *)
+  once KAppendResponse src_Rpc_on_frame && once KStoreResponse src_Rpc_on_frame &&
+  (* get_request: wait, take the frame, drop the entry *)
+  once KWaitFor src_Rpc_get_request && once KGetFrame src_Rpc_get_request &&
+  once KRpcRemove src_Rpc_get_request &&
+  before KWaitFor KGetFrame src_Rpc_get_request && before KGetFrame KRpcRemove src_Rpc_get_request.
+
 (* ---- C05: register / write / wait of a synchronous call inside rpc.lock, in that order ---- *)
 Definition rpc_shape_ok : bool :=
   all_under LRpc KRegister src_Channel_rpc_request &&
@@ -55,7 +72,8 @@ Definition rpc_shape_ok : bool :=
   before KRegister KConnWriteFrame src_Channel_rpc_request &&
   before KConnWriteFrame KGetRequest src_Channel_rpc_request &&
   (* the error check comes before the request is written (fix 0829ccb) *)
-  before KCheckErrors KConnWriteFrame src_Channel_rpc_request.
+  before KCheckErrors KConnWriteFrame src_Channel_rpc_request &&
+  table_shape_ok.
 
 (* ---- C13: the confirm wait of a publish likewise ---- *)
 Definition confirm_shape_ok : bool :=
@@ -64,7 +82,8 @@ Definition confirm_shape_ok : bool :=
   once KRegister src_Basic_publish_confirm && once KChanWriteFrames src_Basic_publish_confirm &&
   once KGetRequest src_Basic_publish_confirm &&
   before KRegister KChanWriteFrames src_Basic_publish_confirm &&
-  before KChanWriteFrames KGetRequest src_Basic_publish_confirm.
+  before KChanWriteFrames KGetRequest src_Basic_publish_confirm &&
+  table_shape_ok.
 
 (* ---- C11: one caller moves the channel from open to closing ---- *)
 Definition close_shape_ok : bool :=
